@@ -21,6 +21,23 @@ func c11(p *core.Program, r *core.Report) {
 	c11BlockExtent(p, r)
 	r.Rule("R7", "both repairs reach every replica: in syncBlock's per-replica loop every path of an iteration that is not an error exit has, for each of the pair sets defined in the loop body (the replica's sets and its clears), either sent a request built from it (ImportRoaring with an argument derived from it) or tested its column list to be empty")
 	c11BothRepairsSent(p, r)
+	// R8: "afterwards all replicas report identical block checksums": a repair applied on a replica
+	// (importRoaring for the remote legs, mergeBlock for the local one) must drop the cached checksum
+	// of the block it changed. The obligations are C10-R1's for those two functions.
+	r.Rule("R8", "repairs invalidate checksums (= C10-R1 on the repair paths): every path through fragment.importRoaring and fragment.mergeBlock that mutates storage drops the cached block checksum before it returns normally; a replica that keeps its pre-repair checksum reports a different checksum for identical bits and masks the next divergence")
+	{
+		tmp := core.NewReport("C10", r.Tier)
+		c10(p, tmp)
+		n := 0
+		for _, o := range tmp.Obls {
+			if o.Rule == "R1" && (strings.Contains(o.Construct, "(*fragment).importRoaring") || strings.Contains(o.Construct, "(*fragment).mergeBlock")) {
+				o.Rule = "R8"
+				r.Obls = append(r.Obls, o)
+				n++
+			}
+		}
+		r.Floor("C11/R8 repair-path obligations taken over from C10-R1", n, 2)
+	}
 	r.NotDecided = "the majority vote itself for all contents (the merge loop's iteration); convergence of checksums after a pass"
 	pk := p.Pkg("")
 	if pk == nil {
